@@ -17,7 +17,7 @@ LEVEL = "exploration"
 ENGINE = "enum"
 TECHNIQUE = "bounded exhaustive enumeration of distdir/repository/installed-set/option combinations executed on a scratch distdir"
 RULE = (
-    "every combination of (repository variant with shared, foreign-named, USE-conditional and fetch-restricted "
+    "every combination of (repository variant with shared, foreign-named, USE-conditional and (conditionally) fetch-restricted "
     "distfiles; installed set; cleaning targets; exclusion patterns; --installed/--exists/--fetch-restricted; "
     "modified/size filters; assignment of sizes and mtimes to the six distdir files) is executed; a removed file must be "
     "selected by the targets (everything when no target is given, else a distfile of a targeted package or a file whose "
@@ -33,12 +33,13 @@ ASSUMPTIONS = [
     "distfile names are <prefix>-<version>.tar or stray.bin; 'selected by a target' includes the name-prefix heuristic for "
     "old versions (prefix = package name or prefix of one of the targeted packages' own distfiles)",
     "'needed by a repository package' = every file of its SRC_URI regardless of USE; 'needed by an installed package' = files under its recorded USE",
+    "a repository package is fetch-restricted iff 'fetch' is in its RESTRICT evaluated under the USE of the configured package (the raw package behind _raw_pkg keeps the conditional)",
     "--modified is given as an absolute threshold (parse_time reads the clock); --size goes through parse_size('1K')",
     "pkgsets and --exclude-file are not used; namespace.repo is given explicitly; _remove runs with a tty stdout, pretend off",
 ]
 BOUNDS = {
-    "quick": "5 repositories x 5 installed sets x 5 target lists x 3 exclusion lists x 8 flag combinations x 4 filter settings x 2 size/mtime assignments = 24000 runs over a 6-file distdir",
-    "thorough": "5 repositories x 5 installed sets x 7 target lists x 5 exclusion lists x 8 flag combinations x 4 filter settings x 4 size/mtime assignments = 112000 runs",
+    "quick": "6 repositories x 5 installed sets x 5 target lists x 3 exclusion lists x 8 flag combinations x 4 filter settings x 2 size/mtime assignments = 28800 runs over a 6-file distdir",
+    "thorough": "6 repositories x 5 installed sets x 7 target lists x 5 exclusion lists x 8 flag combinations x 4 filter settings x 4 size/mtime assignments = 134400 runs",
 }
 
 # ----------------------------------------------------------------------------------------------------------------
@@ -66,6 +67,14 @@ REPOS = {
         ["a/p-2", "p-2.tar", "fetch", []],
         ["a/q-1", "q-1.tar !f? ( stray.bin )", "", []],
     ],
+    # RESTRICT=fetch only under a USE flag: enabled for a/p-1 and a/q-2 (fetch-restricted as configured), disabled for
+    # a/p-2 and negated-and-enabled for a/q-1 (not fetch-restricted)
+    "conditional-fetch-restriction": [
+        ["a/p-1", "p-1.tar p-0.tar", "vendor? ( fetch )", ["vendor"]],
+        ["a/p-2", "p-2.tar", "vendor? ( fetch )", []],
+        ["a/q-1", "q-1.tar", "!vendor? ( fetch )", ["vendor"]],
+        ["a/q-2", "q-2.tar stray.bin", "mirror vendor? ( fetch )", ["vendor"]],
+    ],
 }
 INSTALLED = {
     "none": [],
@@ -86,7 +95,7 @@ FILTERS = [(False, False), (True, False), (False, True), (True, True)]  # (modif
 # reference (plain Python)
 # ----------------------------------------------------------------------------------------------------------------
 def ref_distfiles(src, use=None):
-    """Files of a SRC_URI spec; use=None -> regardless of USE, else under the given enabled flags."""
+    """Tokens of a SRC_URI (or RESTRICT) spec; use=None -> regardless of USE, else under the given enabled flags."""
     toks = src.split()
     out = []
     pos = 0
@@ -165,7 +174,7 @@ def ref_sets(case):
         if f_exists:
             for f in files:
                 protected.setdefault(f, "exists")
-        if f_fetch and "fetch" in p[2].split():
+        if f_fetch and "fetch" in ref_distfiles(p[2], set(p[3])):
             for f in files:
                 protected.setdefault(f, "fetch-restricted")
         if any(ref_match(x, p[0]) for x in excludes):
@@ -233,6 +242,7 @@ def _pkg(spec):
     raw = FakePkg(cpv, eapi="8", restrict=restrict, data={"SRC_URI": uri})
     cfg = _cfg_cls(cpv, eapi="8", restrict=restrict, data={"SRC_URI": uri}, use=tuple(use))
     object.__setattr__(cfg, "_raw_pkg", raw)
+    object.__setattr__(cfg, "restrict", raw.restrict.evaluate_depset(set(use)))
     return cfg
 
 
